@@ -2,8 +2,11 @@ package main
 
 import (
 	"go/ast"
+	"strconv"
 	"strings"
 )
+
+func strconvQuote(s string) string { return strconv.Quote(s) }
 
 // Lock discipline of IPv4Filter.{Add,Remove,Contains}: position of the (R)Lock statement, whether
 // the very next statement defers the matching unlock, whether any guarded field (mode, index,
@@ -81,5 +84,36 @@ func extractFilterLock() {
 		return true
 	})
 	l.printf("def matchAllType : String := %q\ndef mutexType : String := %q\n", matchAllType, mutexType)
+	// the complete field list of IPv4Filter and the complete method set declared in filter.go: state
+	// the model does not know about (a cache, a second index) or a helper that touches guarded state
+	// outside the extracted functions would make the lock-discipline facts above meaningless
+	var fields, methods []string
+	ast.Inspect(f, func(n ast.Node) bool {
+		if ts, ok := n.(*ast.TypeSpec); ok && ts.Name.Name == "IPv4Filter" {
+			if st, ok := ts.Type.(*ast.StructType); ok {
+				for _, fld := range st.Fields.List {
+					for _, nm := range fld.Names {
+						fields = append(fields, nm.Name+" "+exprString(fld.Type))
+					}
+				}
+			}
+		}
+		return true
+	})
+	for _, d := range f.Decls {
+		if fd, ok := d.(*ast.FuncDecl); ok && fd.Recv != nil {
+			methods = append(methods, fd.Name.Name)
+		}
+	}
+	q := func(xs []string) string {
+		o := make([]string, len(xs))
+		for i, x := range xs {
+			o[i] = strconvQuote(x)
+		}
+		return "[" + strings.Join(o, ", ") + "]"
+	}
+	l.printf("def filterFields : List String := %s\ndef filterMethods : List String := %s\n", q(fields), q(methods))
+	facts["filterlock.fields"] = fields
+	facts["filterlock.methods"] = methods
 	l.write()
 }
